@@ -140,6 +140,17 @@ def spec_of(t):
         return 'EffectPosition'
     if t is cp.SoundEffectPacket.Pitch:
         return 'Pitch'
+    # a field declared with a subclass of a basic wire type is a field of
+    # that type: judged by the base type's published encoding
+    import inspect
+    if inspect.isclass(t):
+        for n in ('String', 'VarInt', 'VarLong', 'TrailingByteArray',
+                  'VarIntPrefixedByteArray', 'ShortPrefixedByteArray',
+                  'UUID', 'Position', 'Angle', 'Boolean', 'UnsignedByte',
+                  'Byte', 'Short', 'UnsignedShort', 'Integer', 'Long',
+                  'UnsignedLong', 'Float', 'Double'):
+            if issubclass(t, getattr(T, n)):
+                return n
     raise KeyError('unknown wire type %r' % (t,))
 
 
